@@ -13,7 +13,7 @@ V = r"[A-Za-z_][A-Za-z0-9_]*"   # a user variable (rows do not depend on how loc
 ROWS = [
     (r"^main$", r"^unwrap\(init\(with_level\(new\(\)\)\)\)$",
      "logger initialisation at start-up, before any input is read; fails only if a global logger was already set", None, 1),
-    (r"^setup_context(::\{closure#\d+\})?$", r"^unwrap\(to_str\(%s\)\)$" % V,
+    (r"^setup_context(::\{closure#\d+\})?$", r"^unwrap\(to_str\((%s|parent\(new\(.*\)\)\.0)\)\)$" % V,
      "the value is the parent of a Path built from a Rust String (valid UTF-8), so to_str() is Some", "path_from_string", 1),
     (r"NextReferenceIdProcessor as .*::map::\{closure#0\}$", r"^Add\(%s,1\):usize$" % V,
      "usize counter bounded by the number of entries in one file", None, 1),
@@ -41,9 +41,9 @@ ROWS = [
      "index 0 is always a char boundary", None, 1),
     (r"code_parser::check_for_boolean_directive$", r"^index\[RangeFrom<usize\]\(%s,RangeFrom\{%s\}\)$" % (V, V),
      "subject_pos is the start() of a pest span over `code` at both call sites (C14-R4): a char boundary <= len", "directive_callers", 1),
-    (r"code_parser::check_for_boolean_directive$", r"^Add\(%s,map_or\(next\(chars\(index\(%s\)\)\)\)\):usize$" % (V, V),
+    (r"code_parser::check_for_boolean_directive$", r"^Add\(%s,(map_or\(next\(chars\(index\(%s\)\)\)\)|tmp)\):usize$" % (V, V),
      "offset + length of one char of the same string: <= len", None, 1),
-    (r"code_parser::check_for_boolean_directive$", r"^index\[RangeTo<usize\]\(%s,RangeTo\{(%s|Add\(%s,map_or\(next\(chars\(index\(%s\)\)\)\)\)\.0)\}\)$" % (V, V, V, V),
+    (r"code_parser::check_for_boolean_directive$", r"^index\[RangeTo<usize\]\(%s,RangeTo\{(%s|Add\(%s,(map_or\(next\(chars\(index\(%s\)\)\)\)|tmp)\)\.0)\}\)$" % (V, V, V, V),
      "end = subject_pos + len_utf8(first char at subject_pos): a char boundary <= len", "char_boundary_end", 1),
     (r"rust_log_ref_finder::find$", r"^panic\('internal error: entered unrea",
      "the `_ => unreachable!()` arm of the pair walk: the grammar produces only log_macro / EOI under `file` (C17-R2)", "walk_covers", 1),
@@ -51,6 +51,10 @@ ROWS = [
      "span start + 1 where the span begins with the 1-byte `(`: <= len", None, 1),
     (r"rust_log_ref_finder::find$", r"^Add\(line_col\(start_pos\(%s\)\)\.1,1\):usize$" % V,
      "column + 1, bounded by the line length", None, 1),
+    (r"rust_log_ref_finder::find$", r"^Add\(rfind\(.*\)\.0,2\):usize$",
+     "rfind(\"::\") found the two-byte separator at that offset: + 2 <= len (the `map_or` closure, seen after desugaring)", None, 1),
+    (r"rust_log_ref_finder::find$", r"^index\[RangeFrom<usize\]\(%s,RangeFrom\{Add\(rfind\(.*\)\.0,2\)\.0\}\)$" % V,
+     "offset of the end of an ASCII match inside the same string: a char boundary <= len", None, 1),
     (r"rust_log_ref_finder::find::\{closure#\d+\}$", r"^Add\(%s,2\):usize$" % V,
      "the argument is rfind(\"::\") of the name: + 2 <= len", "rfind_closure", 1),
     (r"rust_log_ref_finder::find::\{closure#\d+\}$", r"^index\[RangeFrom<usize\]\(%s,RangeFrom\{Add\(%s,2\)\.0\}\)$" % (V, V),
